@@ -116,6 +116,16 @@ FreeRunOf(est, plans, tol) ==
      LET a == plans[t][i]  b == plans[t][i+1]  e == est[t][a[4] + 1] IN
      (e[4] = b[4] /\ b[3] < INF) => b[3] - a[3] >= e[2] - tol
 
+\* every dispatch path is a walk of the train's own estimated-time network from its start node to its end node,
+\* node events included (update_free_path may only splice in other walks of that network)
+PlanIsWalkOf(est, plans) ==
+  \A t \in 1..Len(plans) :
+    LET p == plans[t]  ns == est[t] IN
+    /\ Len(p) >= 1 /\ p[1][4] = 0 /\ p[Len(p)][4] = Len(ns) - 1
+    /\ \A i \in 1..Len(p) : p[i][4] >= 0 /\ p[i][4] < Len(ns)
+                            /\ ns[p[i][4] + 1][8] = p[i][2] /\ ns[p[i][4] + 1][9] = p[i][1]
+    /\ \A i \in 1..(Len(p) - 1) : p[i+1][4] # 0 /\ p[i+1][4] \in {ns[p[i][4] + 1][4], ns[p[i][4] + 1][5]}
+
 AllTimedOf(plans) == \A t \in 1..Len(plans) : \A i \in 1..Len(plans[t]) : plans[t][i][3] < INF
 
 \* the returned plan is the Arrive projection of the final dispatch paths
